@@ -375,6 +375,32 @@ func c20R4(c *Ctx, rule string) {
 				if s, ok := strConst(x.Val); ok && fieldNames[s] {
 					gotUnq = append(gotUnq, s)
 				}
+			case *ssa.Lookup:
+				// the same set kept in a package-level map that the key is looked up in: the keys the initialiser puts in
+				if ld, ok := x.X.(*ssa.UnOp); ok {
+					if g, isG := ld.X.(*ssa.Global); isG && g.Pkg != nil {
+						if init := g.Pkg.Func("init"); init != nil {
+							allInstrs(init, func(j ssa.Instruction) {
+								mu, isMU := j.(*ssa.MapUpdate)
+								if !isMU {
+									return
+								}
+								// the map value under construction is stored into g afterwards
+								stored := false
+								if mu.Map.Referrers() != nil {
+									for _, r := range *mu.Map.Referrers() {
+										if st, isSt := r.(*ssa.Store); isSt && st.Addr == ssa.Value(g) {
+											stored = true
+										}
+									}
+								}
+								if s, okS := strConst(mu.Key); okS && stored && fieldNames[s] {
+									gotUnq = append(gotUnq, s)
+								}
+							})
+						}
+					}
+				}
 			case *ssa.BinOp:
 				// the same set spelled as comparisons of the key (switch key { case "NumConn", … })
 				if x.Op == token.EQL {
